@@ -196,7 +196,25 @@ def d4_scan(facts, rep):
             rep.ob('D4', 'K4', fn, 'a right child gets a body of its own when it was stolen or when its left sibling has not delivered its sum yet', deps_ok,
                    'the decision depends on the steal status only: a right child that the same thread starts while the left sibling is '
                    'suspended in a nested wait runs the final pass on the shared body with an incomplete prefix', ln=node['ln'])
-    rep.floor('D4', 4, 'scan passes')
+        # a leaf publishes its summary (the address of its body) in the parent's slot; the right sibling compares that slot with
+        # its own body to decide whether the left half is complete.  The slot may therefore be written only AFTER the body ran
+        # over the leaf's range: no body invocation is reachable from the publication.
+        from engine.rules import assignments
+        pubs = []
+        for pos, sx, l, r in assignments(fn):
+            ln_ = fn.n(fn.strip(l))
+            if ln_.get('k') == 'unop' and ln_.get('op') == '*' and last_member(fn, ln_['sub']) == 'm_sum_slot':
+                pubs.append((pos, sx))
+        if not pubs:
+            raise AnalysisBroken('start_scan::execute: publication *m_sum_slot = ... not found')
+        runs = fc + pc
+        late = [fn.n(sx).get('ln') for pos, sx in pubs if any(fn.can_reach(pos, c[0]) for c in runs)]
+        early = [fn.n(sx).get('ln') for pos, sx in pubs if not any(fn.can_reach(c[0], pos) for c in runs)]
+        rep.ob('D4', 'K4', fn, 'a leaf publishes its summary slot only after its body ran over the leaf', not late and not early,
+               'the slot is written (line %s) before / without the body invocation: a right sibling started by the same thread while the leaf '
+               'is suspended inside its body (nested wait) sees m_left_sum == its body, concludes the left half is complete and runs the '
+               'final pass on the shared body with an incomplete prefix' % (late or early), key_extra='publish-after-run')
+    rep.floor('D4', 5, 'scan passes')
 
 
 def d5_sort(facts, rep):
